@@ -13,6 +13,10 @@
 #include "sol_rec.h"
 #include "mp/nl-solver.h"
 #include "mp/nl-model.h"
+extern "C" {
+#include "api/c/nl-solver-c.h"
+#include "api/c/sol-handler-c.h"
+}
 
 #ifdef VERIF_COVERAGE
 extern "C" void __gcov_dump(void);
@@ -81,6 +85,66 @@ static std::string readEasy(const std::string& work, const std::string& bytes, i
   return r + " || emsg=" + hexs(emsg.data(), std::min<size_t>(emsg.size(), 8192));
 }
 
+// ---- the C API: NLW2_Read2SOLHandler_C with an NLW2_SOLHandler_C of plain C callbacks (wrapped by the library's NLW2_SOLHandler_C_Impl)
+struct CRec { std::string out; int nev = 0; int nv = 0, nc = 0; };
+static void cev(CRec* r, const std::string& s) { r->out += (r->nev++ ? " ; " : "") + s; }
+static NLHeader_C c_header(void* u) {
+  NLHeader_C h = MakeNLHeader_C_Default();
+  h.pi.num_vars = ((CRec*)u)->nv;
+  h.pi.num_algebraic_cons = ((CRec*)u)->nc;
+  return h;
+}
+static void c_msg(void* u, const char* s, int nbs) { cev((CRec*)u, "msg " + hexs(s, strlen(s)) + " " + std::to_string(nbs)); }
+static int c_opts(void* u, AMPLOptions_C ao) {
+  // a careful C callback: reads at most the declared capacity of the array it was given
+  int cap = (int)(sizeof(ao.options_) / sizeof(ao.options_[0]));
+  std::string s = "opts n=" + std::to_string(ao.n_options_) + " cap=" + std::to_string(cap) + " ";
+  for (int i = 0; i < ao.n_options_ && i < cap; i++) s += (i ? "," : "") + std::to_string(ao.options_[i]);
+  s += ao.has_vbtol_ ? " 1" : " 0";
+  cev((CRec*)u, s);
+  return 0;
+}
+static void c_vec(void* u, const char* tag, int nvals, void* api) {
+  std::string items;
+  for (int i = 0; i < nvals; i++) { double v = NLW2_ReadSolVal(api); items += (i ? "," : "") + val(v); }
+  cev((CRec*)u, std::string(tag) + " " + std::to_string(nvals) + " " + (nvals ? items : "-"));
+}
+static void c_dual(void* u, int n, void* api) { c_vec(u, "dual", n, api); }
+static void c_primal(void* u, int n, void* api) { c_vec(u, "primal", n, api); }
+static void c_objno(void* u, int o) { cev((CRec*)u, "objno I" + std::to_string(o)); }
+static void c_code(void* u, int c) { ((CRec*)u)->out += " I" + std::to_string(c); }
+static void c_isuf(void* u, NLW2_SuffixInfo_C si, void* api) {
+  std::string items; int k = 0, i, v;
+  while (NLW2_IntSuffixNNZ(api)) { NLW2_ReadIntSuffixEntry(api, &i, &v); if (NLW2_IntSuffixReadOK(api)) items += (k++ ? "," : "") + std::to_string(i) + ":I" + std::to_string(v); }
+  cev((CRec*)u, "suf " + std::to_string(si.kind_) + " " + hexs(si.name_, strlen(si.name_)) + " " + hexs(si.table_, strlen(si.table_)) + " " + (NLW2_IntSuffixReadOK(api) ? "OK " : "ERR ") + (k ? items : "-"));
+}
+static void c_dsuf(void* u, NLW2_SuffixInfo_C si, void* api) {
+  std::string items; int k = 0, i; double v;
+  while (NLW2_DblSuffixNNZ(api)) { NLW2_ReadDblSuffixEntry(api, &i, &v); if (NLW2_DblSuffixReadOK(api)) items += (k++ ? "," : "") + std::to_string(i) + ":" + val(v); }
+  cev((CRec*)u, "suf " + std::to_string(si.kind_) + " " + hexs(si.name_, strlen(si.name_)) + " " + hexs(si.table_, strlen(si.table_)) + " " + (NLW2_DblSuffixReadOK(api) ? "OK " : "ERR ") + (k ? items : "-"));
+}
+
+static std::string readCApi(const std::string& work, const std::string& bytes, int nv, int nc) {
+  std::string stub = work + "/capi";
+  {
+    FILE* f = fopen((stub + ".sol").c_str(), "wb");
+    if (!bytes.empty()) fwrite(bytes.data(), 1, bytes.size(), f);
+    fclose(f);
+  }
+  CRec rec; rec.nv = nv; rec.nc = nc;
+  NLW2_SOLHandler_C h = NLW2_MakeSOLHandler_C_Default();
+  h.p_user_data_ = &rec;
+  h.Header = c_header; h.OnSolveMessage = c_msg; h.OnAMPLOptions = c_opts; h.OnDualSolution = c_dual; h.OnPrimalSolution = c_primal;
+  h.OnObjno = c_objno; h.OnSolveCode = c_code; h.OnIntSuffix = c_isuf; h.OnDblSuffix = c_dsuf;
+  NLW2_NLSolver_C cs = NLW2_MakeNLSolver_C(nullptr);
+  NLW2_SetFileStub_C(&cs, stub.c_str());
+  int ok = NLW2_Read2SOLHandler_C(&cs, &h);
+  std::string emsg = NLW2_GetErrorMessage_C(&cs);
+  std::string r = std::string("code=") + (ok ? "OK" : "Error") + " msg=" + (emsg.empty() ? "0" : "1") + " | capi ok=" + (ok ? "1" : "0") + " ; " + rec.out;
+  NLW2_DestroyNLSolver_C(&cs);
+  return r + " || emsg=" + hexs(emsg.data(), std::min<size_t>(emsg.size(), 8192));
+}
+
 int main(int argc, char** argv) {
   if (argc < 3) return 2;
   std::ifstream in(argv[1]);
@@ -95,6 +159,8 @@ int main(int argc, char** argv) {
     RecHandler h;
     std::string bytes;
     bool easy = da == "easy";
+    bool capi = da == "capi";
+    if (capi) da = pa = sa = "all";
     bool missing = hexb == "missing";
     if (easy) da = pa = sa = "while";
     if (missing) hexb = "-";
@@ -105,8 +171,8 @@ int main(int argc, char** argv) {
     {
       FILE* f = fopen(path.c_str(), "wb");
       if (!f) { perror("work file"); return 2; }
-      if (!bytes.empty()) fwrite(bytes.data(), 1, bytes.size(), f);
-      fclose(f);
+      size_t wrote = bytes.empty() ? 0 : fwrite(bytes.data(), 1, bytes.size(), f);
+      if (fclose(f) != 0 || wrote != bytes.size()) { perror("work file (write)"); return 2; }   // e.g. disk full: never run a case on a short file
       if (missing) std::remove(path.c_str());
     }
     int ep[2];
@@ -117,7 +183,7 @@ int main(int argc, char** argv) {
       close(ep[0]);
       dup2(ep[1], 2);
       alarm(20);
-      std::string r = easy ? readEasy(work, bytes, (int)nv, (int)nc) : readWith(path, h, true);
+      std::string r = easy ? readEasy(work, bytes, (int)nv, (int)nc) : capi ? readCApi(work, bytes, (int)nv, (int)nc) : readWith(path, h, true);
       put(id + " " + r + "\n");
       COV_DUMP();
       _exit(0);
